@@ -69,6 +69,8 @@ def run(facts, rep, mixing_rule=False):
         rep.indet('E21.N1: diag_normalize_step never answers true')
     # ---- N2 on the CFG
     step_bb = [c.bb for c in dn.calls() if (c.callee or '').endswith('diag_normalize_step')]
+    if len(step_bb) == 0 and scan_by_all(facts, dn, rep):
+        return
     if len(step_bb) != 1:
         rep.indet('E21.N2: %d calls of diag_normalize_step in diag_normalize' % len(step_bb))
         return
@@ -227,7 +229,7 @@ def check_mixing(st, rep, X, Y):
         rep.indet('E21.N4: no mixing step found in diag_normalize_step')
 
 
-def check_normalise_last(dn, sb, rep):
+def check_normalise_last(dn, sb, rep, step_in_closure=False):
     """N5: the diagonal entries are multiplied by their normalising units *after* the chain loop: a gcd step writes new
     entries (d, x y / d) whose product of normalised factors need not be normalised (Z[i], Z[w]: the sector is not closed
     under multiplication). On the CFG: no step call is reachable from a normalizing_unit call, every path from the step
@@ -256,3 +258,62 @@ def check_normalise_last(dn, sb, rep):
         rep.violation('E21.N5-normalise-last', inst, 'SnfCalc::diag_normalize: ' + '; '.join(sorted(set(probs))), where=dn.where())
     else:
         rep.ok('E21.N5-normalise-last', inst, 'chain loop, then for i in 0..r { mul_row(i, normalizing_unit) }')
+
+
+def scan_by_all(facts, dn, rep):
+    """the same scan written as `loop { if (0..r-1).all(|i| self.diag_normalize_step(i)) { break } }`: Iterator::all stops at
+    the first false answer, the loop then builds a fresh range; a true result (every step answered true) leaves the loop.
+    Returns True when this form was recognised and judged (N2, N3, N5 reported), False otherwise."""
+    import cfgutil
+    clos = [b for k, b in facts.bodies.items() if k.startswith(dn.defp + '::{closure') and any((c.callee or '').endswith('diag_normalize_step') for c in b.calls())]
+    if len(clos) != 1:
+        return False
+    cb = clos[0]
+    rets = {sk(p.ret) for p in SymEx(cb).run() if p.end == 'return'}
+    if not (len(rets) == 1 and re.match(r'diag_normalize_step\(&mut \*+arg1\.\^(_ref__)?self, arg2\)$', next(iter(rets)))):
+        return False
+    alls = [c for c in dn.calls() if (c.generic or c.callee or '').split('::')[-1] == 'all']
+    if len(alls) != 1:
+        return False
+    A = alls[0].bb
+    # the answer of all(): switch in the successor
+    nxt = dn.succs(A)
+    cur = nxt[0] if nxt else None
+    hops = 0
+    while cur is not None and dn.blocks[cur]['term']['k'] == 'goto' and hops < 4:
+        cur = dn.blocks[cur]['term']['target']
+        hops += 1
+    t = dn.blocks[cur]['term'] if cur is not None else None
+    if not t or t['k'] != 'switch':
+        return False
+    zero = [x[1] for x in t['targets'] if x[0] == 0]
+    if len(zero) != 1:
+        return False
+    F, T = zero[0], t['otherwise']
+    rets_b = set(dn.return_blocks())
+    inst = 'SnfCalc::diag_normalize|a false answer restarts the scan from 0'
+    rf = cfgutil.reach_without(dn, F, {A})
+    if A in cfgutil.reach_without(dn, F, set()) and not (rf & rets_b):
+        rep.ok('E21.N2-restart-on-change', inst, 'all() stopped at a false answer -> the loop evaluates all() on a fresh range again')
+    else:
+        rep.violation('E21.N2-restart-on-change', inst, 'after a false answer of a step the scan is not started again before the function can return', where=dn.where())
+    inst = 'SnfCalc::diag_normalize|a true answer leaves the loop only through the exhausted range'
+    if A not in cfgutil.reach_without(dn, T, set()):
+        rep.ok('E21.N2-restart-on-change', inst, 'all() == true (every step answered true) leaves the loop')
+    else:
+        rep.indet('E21.N2: the loop continues although every step answered true')
+    # N3: range of the all()
+    rng = None
+    for p in SymEx(dn, havoc_loops=True, max_paths=20000).run():
+        for e in p.calls():
+            if e.bb == A and e.pre:
+                rng = re.sub(r'&mut _\d+', '&mut _', sk(e.pre[0]))
+    want_r = r'(unwrap_or\((next\(&mut _\)|find\(&mut _, closure<\{closure#\d\}>\)), min\(nrows\(&\*arg1\.target\), ncols\(&\*arg1\.target\)\)\))'
+    inst = 'SnfCalc::diag_normalize|pairs (0,1) .. (r-2, r-1) of the non-zero prefix'
+    if rng and re.match(r'Range::Range\{start: 0, end: SubWithOverflow\(%s, 1\)\.0\}$' % want_r, rng):
+        rep.ok('E21.N3-scan-range', inst, '0 .. r-1')
+    else:
+        rep.indet('E21.N3: scan range outside the recognised fragment: %s' % rng)
+    sb = A
+    check_normalise_last(dn, sb, rep, step_in_closure=True)
+    return True
